@@ -49,6 +49,7 @@ type Enc struct {
 	symStateUsed map[string]T
 	autoDone  map[string]bool
 	lemmaMode bool
+	lazy      map[string]string // assumption symbol -> quantified formula it stands for
 	verAlloc  map[string]T // state-array version -> allocation counter when it was created
 }
 
@@ -108,6 +109,39 @@ func (e *Enc) autoFacts(qn string, s Sort) {
 		e.addFact(qn, fmt.Sprintf("(assert (and (<= 0 (slen %s)) (<= (slen %s) (scap %s)) (<= 0 (soff %s)) (<= 0 (sptr %s)) (=> (= (sptr %s) 0) (= (scap %s) 0))))", qn, qn, qn, qn, qn, qn, qn))
 	case SIface:
 		e.addFact(qn, fmt.Sprintf("(assert (and (>= (tag %s) 0) (= (= (tag %s) 0) (= %s nilI))))", qn, qn, qn))
+	}
+}
+
+// lazyAssume: a Boolean name for a quantified assumption. Its meaning (name => formula) is emitted only
+// for queries whose goal shares a spec function or a state variable with the formula; otherwise the name
+// stays unconstrained, i.e. the assumption is dropped (always sound, keeps irrelevant quantifiers out).
+func (e *Enc) lazyAssume(t T) T {
+	if e.lazy == nil {
+		e.lazy = map[string]string{}
+	}
+	name := q(e.fresh("A"))
+	e.decls[name] = fmt.Sprintf("(declare-const %s Bool)", name)
+	e.lazy[name] = t.S
+	return T{name, SBool}
+}
+
+// relevanceSyms: spec/pure/unwrap function symbols and state-variable base names occurring in s.
+func relevanceSyms(s string, out map[string]bool) {
+	m := map[string]bool{}
+	symbolsOf(s, m)
+	for k := range m {
+		n := strings.Trim(k, "|")
+		switch {
+		case strings.HasPrefix(n, "spec_"), strings.HasPrefix(n, "pure_"), strings.HasPrefix(n, "unwrap_"):
+			out[n] = true
+		case strings.Contains(n, "@"):
+			base := n[:strings.Index(n, "@")]
+			if base != "alloc" {
+				out[base] = true
+			}
+		case strings.HasSuffix(n, "!sv"):
+			out[strings.TrimSuffix(n, "!sv")] = true
+		}
 	}
 }
 
@@ -202,6 +236,7 @@ const prelude = `(declare-sort Str 0)
 func (e *Enc) cone(goal string, extra []string) (decls []string, asserts []string, used map[string]bool) {
 	seen := map[string]bool{}
 	var work []string
+	rel := map[string]bool{}
 	add := func(s string) {
 		m := map[string]bool{}
 		symbolsOf(s, m)
@@ -212,26 +247,62 @@ func (e *Enc) cone(goal string, extra []string) (decls []string, asserts []strin
 			}
 		}
 	}
+	relevanceSyms(goal, rel)
 	add(goal)
 	for _, x := range extra {
 		add(x)
+		relevanceSyms(x, rel)
 	}
 	var visited []string
-	for len(work) > 0 {
-		s := work[len(work)-1]
-		work = work[:len(work)-1]
-		visited = append(visited, s)
-		if d, ok := e.defs[s]; ok {
-			add(d)
+	var pendingLazy []string
+	included := map[string]bool{}
+	drain := func() {
+		for len(work) > 0 {
+			s := work[len(work)-1]
+			work = work[:len(work)-1]
+			visited = append(visited, s)
+			if d, ok := e.defs[s]; ok {
+				add(d)
+			}
+			for _, f := range e.facts[s] {
+				add(f)
+			}
+			if d, ok := e.decls[s]; ok {
+				add(d)
+			}
+			if ax, ok := zeroArrays[s]; ok {
+				add(ax)
+			}
+			if _, ok := e.lazy[s]; ok {
+				pendingLazy = append(pendingLazy, s)
+			}
 		}
-		for _, f := range e.facts[s] {
-			add(f)
-		}
-		if d, ok := e.decls[s]; ok {
-			add(d)
-		}
-		if ax, ok := zeroArrays[s]; ok {
-			add(ax)
+	}
+	drain()
+	for changed := true; changed; {
+		changed = false
+		for _, a := range pendingLazy {
+			if included[a] {
+				continue
+			}
+			fr := map[string]bool{}
+			relevanceSyms(e.lazy[a], fr)
+			hit := len(fr) == 0
+			for k := range fr {
+				if rel[k] {
+					hit = true
+					break
+				}
+			}
+			if hit {
+				included[a] = true
+				changed = true
+				for k := range fr {
+					rel[k] = true
+				}
+				add(e.lazy[a])
+				drain()
+			}
 		}
 	}
 	sort.Strings(visited)
@@ -254,6 +325,9 @@ func (e *Enc) cone(goal string, extra []string) (decls []string, asserts []strin
 			asserts = append(asserts, d)
 		}
 		asserts = append(asserts, e.facts[s]...)
+		if included[s] {
+			asserts = append(asserts, fmt.Sprintf("(assert (=> %s %s))", s, e.lazy[s]))
+		}
 	}
 	return
 }
